@@ -12,6 +12,7 @@ def run(ctx):
     if dev is not None:
         ctx.log("deviations exhibited by the tree under test: %s" % dev)
         runs = [("E0", "Inits0", 3, "ModesAll", None), ("E1", "Inits1", 3 if T else 2, "ModesAll", None),
+                ("E2", "Inits2", 3 if T else 2, "ModesOwn", None),
                 ("R", "Inits01", 1000, "ModesAll", ("num=%d" % (1500 if T else 300), 30))]
         for tag, inits, max_ops, modes, sim in runs:
             mc = au.tlc_asis(ctx, "Auth_asis_%s.cfg" % tag, dev, inits, max_ops, modes, simulate=sim[0] if sim else None, depth=sim[1] if sim else None)
